@@ -35,8 +35,12 @@ RULE = ("paths = every solution of Basic/Specialized tracers in Antarctic, Green
         "input's component/filter lists must stay untouched. attenuation is called with long frequency arrays (1025..3000 entries, mixed signs) and compared element by "
         "element with single-frequency calls; signals of 513..1500 samples are propagated un-interpolated and "
         "compared bin by bin with a recomputation that evaluates attenuation in short pieces. "
-        "-log(attenuation) is compared with an independent fine midpoint quadrature of ds/L_att along the path (uniform, "
-        "layered, direct basic/specialized). The form without polarisation (no force_real, negative frequencies looked up) is run for every "
+        "-log(attenuation) is compared with an independent quadrature of ds/L_att along the path (uniform, layered, "
+        "direct, surface-reflected and turning basic/specialized rays; turning-point singularity removed by "
+        "z = z_turn - s^2). Corner geometries come first: equal depths, |dz| < 1 m, vertical, identical end points, "
+        "end point on a layer boundary, equal indices, grazing incidence, flat refracted rays. Signals on integer "
+        "time grids (int64, int32, range) and interpolation steps 1.5 and 5 are ordinary inputs; steps <= 0 / NaN "
+        "must raise. The form without polarisation (no force_real, negative frequencies looked up) is run for every "
         "interpolation step and compared with the numpy recomputation using the |f|-symmetric factor and with the "
         "s-component of the polarised form")
 LEVEL_TEXT = ("theorems C03_* proved over R for every path integral, every pair of indices, every incidence angle, "
@@ -49,7 +53,19 @@ LEVEL_NOTE = ("floating-point rounding not modelled; the sampled depths of a pat
               "launch angles are not modelled. No `_partial` theorem; the hypothesis 'L_att(z,.) does not grow with f' of "
               "the monotonicity theorems is proved for all three shipped ices on their valid ranges "
               "(C03_L_antarctic_mono, C03_L_greenland_mono, C03_L_arasim_const/_mono, C03_atten_lengths_shipped_ices). "
-              "Known finding K2: layered transmission coefficients exceed 1 (stated without a bound).")
+              "Known finding K2: layered transmission coefficients exceed 1 (stated without a bound). "
+              "Hypothesis audit: 'does not grow with |f|' is conditional on the ice model - with a user ice whose "
+              "attenuation_length grows with f the factor grows too (shown with a subclass); proved for the three shipped "
+              "ices on their valid ranges, and the tracers return no solution for end points outside those ranges. "
+              "attenuation_interpolation must be positive: 0, negative and NaN steps raise OverflowError/ValueError in "
+              "the basic/specialized paths (checked), steps > 1 are ordinary inputs; the model's logGrid is totalised "
+              "and is never asked for such a step. Zero-length paths (identical end points), equal indices, grazing and "
+              "normal incidence are corner cases of the generators (theorems C03_reflect_equal_indices, "
+              "C03_reflect_grazing_unit). Known finding K27: BasicRayTracePath on rays turning below the surface omits "
+              "the path within dz/10 of the turning depth; the independent quadrature is a hard check (3e-3) for the "
+              "specialized class, for direct and surface-reflected basic paths (4e-3), uniform and layered paths (2e-3). "
+              "Integer time grids (repaired defect F22) are an ordinary input form. Counters skipped_* in the evidence "
+              "list geometries for which a tracer raised (C02: K17) and pulses that could not be constructed.")
 ASSUMPTIONS = ["emitted and received directions are unit vectors sharing the azimuth phi (C01/C18)",
                "np.interp is piecewise linear with constant continuation; np.trapz is the trapezoid sum"]
 
@@ -117,6 +133,24 @@ def ice_toks(ice):
                          opt(ice._index_above), opt(ice._index_below))
 
 
+SKIPPED = {}
+DEEP_KEY = "K26"      # one id for C01 (the ray misses the receiver) and C03 (attenuation exponent too large)
+DEEP_TEXT = ("K26: SpecializedRayTracePath below z_uniform, nearly horizontal: the launch angle does not belong to the "
+             "straight line whose length is reported, so -log(attenuation) exceeds path_length / L_att")
+K27_TEXT = ("K27: BasicRayTracePath on a ray turning below the surface: z_integral stops z_turn_proximity = dz/10 "
+            "below the turning depth, so -log(attenuation) misses the flat part of the ray next to it")
+
+
+def note_skip(key):
+    SKIPPED[key] = SKIPPED.get(key, 0) + 1
+
+
+def flush_skips(run):
+    for k, v in SKIPPED.items():
+        run.count("skipped_" + k, v)
+    SKIPPED.clear()
+
+
 def make_paths(case):
     """-> list of path objects of the tracer described by `case`"""
     rt, im, ps, li = mods()
@@ -137,7 +171,8 @@ def make_paths(case):
         raise ValueError(t)
     try:
         return list(tr.solutions), ice
-    except Exception as e:  # a tracer that cannot handle a geometry is not this property's subject
+    except Exception as e:  # a tracer that cannot handle a geometry is not this property's subject (C02: K17)
+        note_skip("tracer_raised_" + t)
         return [], ice
 
 
@@ -406,6 +441,23 @@ def corner_cases(rng):
         {"tracer": "layered", "ice": lay, "max_reflections": 0, "from": [x0, y0, -400.0],
          "to": [x0 + r1 * c, y0 + r1 * sn, -150.0]},
     ]
+    same = {"kind": "uniform", "n": 1.5, "range": [-800.0, 0.0], "above": 1.5, "below": 1.5}
+    cs += [
+        # flat refracted rays of the basic and the specialized tracer (turning below the surface; K27 for basic)
+        {"tracer": "basic", "ice": {"kind": "antarctic"}, "from": [x0, y0, -170.0],
+         "to": [x0 + 430 * c, y0 + 430 * sn, -195.0]},
+        {"tracer": "specialized", "ice": {"kind": rng.choice(["antarctic", "greenland"])}, "from": [x0, y0, -170.0],
+         "to": [x0 + rng.uniform(300, 500) * c, y0 + rng.uniform(300, 500) * sn, -rng.uniform(150, 260)]},
+        # identical end points (zero-length direct path)
+        {"tracer": "specialized", "ice": {"kind": "antarctic"}, "from": [x0, y0, z], "to": [x0, y0, z]},
+        {"tracer": "uniform", "ice": uni, "max_reflections": 1, "from": [x0, y0, z], "to": [x0, y0, z]},
+        {"tracer": "layered", "ice": lay, "max_reflections": 0, "from": [x0, y0, -300.0], "to": [x0, y0, -300.0]},
+        # equal indices on both sides of the boundary (r = 0), grazing incidence (|r| -> 1), normal incidence
+        {"tracer": "uniform", "ice": same, "max_reflections": 1, "from": [x0, y0, -100.0],
+         "to": [x0 + r2 * c, y0 + r2 * sn, -140.0]},
+        {"tracer": "uniform", "ice": uni, "max_reflections": 1, "from": [x0, y0, -0.01],
+         "to": [x0 + 3000 * c, y0 + 3000 * sn, -0.02]},
+    ]
     return cs
 
 
@@ -414,7 +466,8 @@ def collect_paths(run, npaths):
     out = []
     order = ["specialized", "basic", "uniform", "layered"]
     guard = 0
-    corners = corner_cases(run.rng)[::2]
+    corners = corner_cases(run.rng)
+    corners = corners[:9:2] + corners[11::2]
     while len(out) < npaths and guard < 40 * npaths:
         guard += 1
         case = corners.pop(0) if corners else gen_case(run.rng, tracer=order[guard % 4] if guard <= 4 * 6 else None)
@@ -493,7 +546,7 @@ def correspondence(run):
         # another sampling step (and the same interpolation setting), then a degenerate polarisation / signal.
         n = rng.randint(2, run.scale(40, 64))
         dt = 10 ** rng.uniform(-10, -8)
-        interp = rng.choice([None, None, 0.05, 0.1, 0.5])
+        interp = rng.choice([None, None, 0.05, 0.1, 0.5, 1.5])
         if kind in ("uniform", "layered") and rng.random() < 0.5:
             interp = None
         if interp is not None and n == 11:
@@ -626,6 +679,11 @@ def judge(run, reqs, expect, tols, descs, replies, grid_rel=None):
             good = got is not None and len(got) == 9 and close_list(got[:3] + got[6:], ex, 1e-12)
         elif d.get("op") == "grid":
             good = close_list(got, ex, 0.0, rel=grid_rel or 1e-12)
+        elif d.get("op") in ("attenuation", "sub-attenuation"):
+            # attenuation factors are compared in the exponent (see _factor_gap); factors below 1e-300 count as equal
+            good = got is not None and len(got) == len(ex) and all(
+                (a < 1e-300 and b < 1e-300 and a >= 0 and b >= 0) or float(_factor_gap(a, b)) <= 1e-9
+                for a, b in zip(got, ex))
         elif d.get("op") == "alen":
             good = close_list(got, ex, 0.0, rel=1e-9)
         else:
@@ -701,6 +759,62 @@ def exponent_bounds(path, kind, f, m=400):
     return (pl / float(np.max(L)), pl / float(np.min(L)))
 
 
+def deep_branch_excess(path, kind):
+    """for a specialized path with a part below z_uniform where |sin theta| > 0.99: max sec(theta)/min sec(theta)
+    of the code's own integrand over that part (the factor by which its attenuation exponent may exceed
+    path_length / L_att); None otherwise"""
+    if kind == "layered":
+        vals = [deep_branch_excess(q, sub_kind(q)) for q in path.paths]
+        vals = [v for v in vals if v is not None]
+        return max(vals) if vals else None
+    if kind != "specialized":
+        return None
+    try:
+        zu = float(path.z_uniform)
+    except Exception:      # noqa: BLE001
+        return None
+    zlo = min(float(path.z0), float(path.z1))
+    zhi = min(max(float(path.z0), float(path.z1)) if path.direct else float("inf"), zu)
+    if not (zlo < zu) or not math.isfinite(zhi) or zhi <= zlo:
+        zhi = zu if zlo < zu else None
+    if zhi is None:
+        return None
+    zs = np.linspace(zlo, min(zhi, zu), 200)
+    sn = np.abs(float(path.beta)) / np.asarray(path.ice.index(zs), dtype=float)
+    if np.max(sn) <= 0.99 or np.max(sn) >= 1:
+        return None
+    sec = 1 / np.sqrt(1 - sn ** 2)
+    if path.direct and float(path.path_length) > 0:
+        # the launch angle of the deep branch does not belong to the straight line the branch assumes:
+        # |dz| * sec(theta) is the length the attenuation integral describes, path_length the chord
+        return max(1.0, float(np.max(sec)) * abs(float(path.z1) - float(path.z0)) / float(path.path_length))
+    return float(np.max(sec) / np.min(sec))
+
+
+def basic_turning_omitted(path, f, m=2000):
+    """path integral of ds/L_att over the depth intervals BasicRayTracePath.z_integral leaves out on a turning ray:
+    the last z_turn_proximity = dz/10 below the turning depth on both legs, and a whole leg when it is shorter
+    than one cell (int(|z_turn - dz/10 - z|/dz) == 0)"""
+    ice = path.ice
+    beta = float(path.n0) * math.sin(float(path.theta0))
+    zt, dz = float(path.z_turn), float(path.dz)
+    prox = dz / 10
+    tot = 0.0
+    for za in (float(path.z0), float(path.z1)):
+        cells = int(abs(zt - prox - za) / dz)
+        depth = (zt - za) if cells == 0 else prox
+        if depth <= 0:
+            continue
+        big = math.sqrt(depth)
+        sv = (np.arange(m) + 0.5) / m * big
+        zs, w = zt - sv * sv, 2 * sv * (big / m)
+        c2 = 1 - (beta / np.asarray(ice.index(zs), dtype=float)) ** 2
+        if np.any(c2 <= 0):
+            return None
+        tot += float(np.sum(w / np.sqrt(c2) / np.asarray(ice.attenuation_length(zs, float(f)), dtype=float)))
+    return tot
+
+
 def indep_exponent(path, kind, f, m=4000):
     """integral of ds / L_att(z, f) along the path by a fine midpoint rule, from the geometry alone; None where the
     integrand is singular (turning rays) or the path class is not covered"""
@@ -719,17 +833,66 @@ def indep_exponent(path, kind, f, m=4000):
             zs = p1[2] + u * (p2[2] - p1[2])
             tot += length * float(np.mean(1.0 / np.asarray(ice.attenuation_length(zs, float(f)), dtype=float)))
         return tot
+    if kind in ("basic", "specialized") and not path.direct:
+        # turning / surface-reflected ray: two legs up to min(z_turn, surface); at a turning depth cos(theta) -> 0
+        # like a square root, removed by the substitution z = z_turn - s^2
+        beta = float(path.n0) * math.sin(float(path.theta0))
+        zt, surf = float(path.z_turn), float(ice.valid_range[1])
+        if not math.isfinite(zt):
+            return None
+        sing, top = zt < surf, min(zt, surf)
+        tot = 0.0
+        for za in (float(path.z0), float(path.z1)):
+            if top <= za:
+                continue
+            if sing:
+                big = math.sqrt(top - za)
+                sv = (np.arange(m) + 0.5) / m * big
+                zs, w = top - sv * sv, 2 * sv * (big / m)
+            else:
+                zs, w = za + (np.arange(m) + 0.5) / m * (top - za), np.full(m, (top - za) / m)
+            c2 = 1 - (beta / np.asarray(ice.index(zs), dtype=float)) ** 2
+            if np.any(c2 <= 0):
+                return None
+            tot += float(np.sum(w / np.sqrt(c2) / np.asarray(ice.attenuation_length(zs, float(f)), dtype=float)))
+        return tot
     if kind in ("basic", "specialized") and path.direct:
         z0, z1 = float(path.z0), float(path.z1)
         if z0 == z1:
             return None
-        u = (np.arange(m) + 0.5) / m
-        zs = z0 + u * (z1 - z0)
-        sin = float(path.n0) * math.sin(float(path.theta0)) / np.asarray(ice.index(zs), dtype=float)
-        if np.any(np.abs(sin) >= 0.999):
+        beta = float(path.n0) * math.sin(float(path.theta0))
+        zlo, zhi = min(z0, z1), max(z0, z1)
+
+        def plain():
+            u = (np.arange(m) + 0.5) / m
+            zs = zlo + u * (zhi - zlo)
+            c2 = 1 - (beta / np.asarray(ice.index(zs), dtype=float)) ** 2
+            if np.any(c2 <= 0):
+                return None
+            return float(np.sum((zhi - zlo) / m / np.sqrt(c2)
+                                / np.asarray(ice.attenuation_length(zs, float(f)), dtype=float)))
+        sin_hi = abs(beta) / float(ice.index(zhi))
+        if sin_hi < 0.99:
+            return plain()
+        # nearly horizontal at the upper end: the would-be turning depth lies just above it; integrate both end
+        # points up to that depth with the substitution z = z_t - s^2 and take the difference
+        try:
+            zt = float(ice.depth_with_index(abs(beta)))
+        except Exception:      # noqa: BLE001
             return None
-        ds = abs(z1 - z0) / m / np.sqrt(1 - sin ** 2)
-        return float(np.sum(ds / np.asarray(ice.attenuation_length(zs, float(f)), dtype=float)))
+        if not math.isfinite(zt) or zt <= zhi or zt >= float(ice.valid_range[1]):
+            return None
+
+        def leg(za):
+            big = math.sqrt(zt - za)
+            sv = (np.arange(m) + 0.5) / m * big
+            zs, w = zt - sv * sv, 2 * sv * (big / m)
+            c2 = 1 - (beta / np.asarray(ice.index(zs), dtype=float)) ** 2
+            if np.any(c2 <= 0):
+                return None
+            return float(np.sum(w / np.sqrt(c2) / np.asarray(ice.attenuation_length(zs, float(f)), dtype=float)))
+        a, b = leg(zlo), leg(zhi)
+        return None if a is None or b is None else a - b
     return None
 
 
@@ -823,11 +986,21 @@ def check_path(run, case, idx, path, deep=False):
             if bnd is None or not (av > 1e-280):
                 continue
             got = -math.log(av)
-            # straight segments are exact; the numeric z-integrals of near-horizontal rays (10 samples in the
-            # transformed variable) are good to about 1 % on the unchanged tree
+            # straight segments are exact; numeric z-integrals get 1.5e-2
             straight = kind == "uniform" or (kind == "layered" and all(sub_kind(q) == "uniform" for q in path.paths))
             slack = 3e-3 if straight else 1.5e-2
-            if not (bnd[0] * (1 - slack) - 1e-9 <= got <= bnd[1] * (1 + slack) + 1e-9):
+            hi = bnd[1] * (1 + slack) + 1e-9
+            deep = deep_branch_excess(path, kind)
+            if deep is not None and got > hi:
+                # SpecializedRayTracePath below z_uniform, |sin theta| > 0.99: path_length is the chord (uniform-ice
+                # branch) but the launch angle handed to the attenuation integral describes a longer ray
+                # (|dz| sec(theta0) > chord).  Known finding K26 (shared with C01): excess only, at most that ratio.
+                run.count("specialized_deep_branch_near_horizontal_excess")
+                if got <= bnd[1] * deep * (1 + slack) + 1e-9:
+                    if DEEP_KEY:
+                        fail("attenuation-bounds", got, list(bnd), DEEP_TEXT, key=DEEP_KEY, extra={"f": fq})
+                    continue
+            if not (bnd[0] * (1 - slack) - 1e-9 <= got <= hi):
                 fail("attenuation-bounds", got, list(bnd),
                      "-log(attenuation) is outside [path_length/max L_att, path_length/min L_att] along the path",
                      extra={"f": fq})
@@ -839,8 +1012,32 @@ def check_path(run, case, idx, path, deep=False):
                 continue
             got = -math.log(av)
             run.count("attenuation_exponent_checked")
-            # clean-tree agreement: specialized 1e-4, layered 3e-4, uniform 6e-4 (left Riemann sum), basic 1.2e-3
-            if abs(got - ref) > {"basic": 4e-3}.get(kind, 2e-3) * ref + 1e-9:
+            if kind == "basic" and not path.direct and float(path.z_turn) < float(path.ice.valid_range[1]):
+                # known finding K27: BasicRayTracePath stops its legs z_turn_proximity = dz/10 below the turning
+                # depth (and a leg shorter than dz has no cell at all).  Recognised by exactly: Basic path, turning
+                # below the surface, |deviation| <= 2.5 x (path integral over the omitted depth intervals) + 4e-3 ref
+                # (unchanged tree: at most 2.04 x).  Anything beyond that is a violation.
+                dev = abs(got - ref)
+                if dev > 4e-3 * ref + 1e-9:
+                    allow = basic_turning_omitted(path, fq)
+                    if allow is not None and dev <= 2.5 * allow + 4e-3 * ref:
+                        fail("attenuation-integral", got, ref, K27_TEXT, key="K27", extra={"f": fq})
+                    else:
+                        fail("attenuation-integral", [got, allow], ref,
+                             "-log(attenuation) of a Basic turning ray is off the path integral by more than the part "
+                             "omitted next to the turning depth can explain", extra={"f": fq})
+                continue
+            # clean-tree agreement: specialized 1e-4 (turning rays 1e-3, nearly horizontal direct rays 1.7e-3),
+            # layered 3e-4, uniform 6e-4 (left Riemann sum), direct / surface-reflected basic 1.2e-3
+            tolq = {"basic": 4e-3, "specialized": 3e-3}.get(kind, 2e-3)
+            if kind == "basic" and path.direct:
+                nz = np.asarray(path.ice.index(np.array([float(path.z0), float(path.z1)])), dtype=float)
+                if float(path.n0) * abs(math.sin(float(path.theta0))) / float(np.min(nz)) > 0.99:
+                    # 1 m trapezoid cells on an integrand that steepens like 1/sqrt towards a would-be turning point
+                    # just beyond the shallow end: the unchanged tree is off by up to 1.1 % here
+                    tolq = 2e-2
+                    run.count("basic_direct_nearly_horizontal_end_tolerance_2e-2")
+            if abs(got - ref) > tolq * ref + 1e-9:
                 fail("attenuation-integral", got, ref,
                      "-log(attenuation) differs from the path integral of ds/L_att (fine midpoint quadrature)",
                      extra={"f": fq})
@@ -946,9 +1143,30 @@ def check_path(run, case, idx, path, deep=False):
         verify_propagation(path, ctx, t0, dt, np.zeros(n), np.array([0.0, 0.0, 1.0]), interp,
                            dict(extra, step="pol=z signal=zero"))
         # the form without polarisation (no force_real: negative frequencies are looked up), every interpolation step
-        for ip in (None, 0.05, 0.1, 0.5):
+        for ip in (None, 0.05, 0.1, 0.5, 1.5, 5.0):
             verify_scalar(path, ctx, t0, dt, x if n != 11 or ip is None else x[:10], ip,
                           dict(extra, step="scalar", interp=ip))
+        verify_propagation(path, ctx, t0, dt, x if n != 11 else x[:10], pol, float(g.choice([1.5, 5.0, 1e-3])),
+                           dict(extra, step="coarse / fine interpolation step"))
+        # an interpolation step must be positive: zero, negative and NaN steps are rejected, never silently used
+        if kind in ("basic", "specialized") and n >= 2:
+            for bad in (0, 0.0, float("nan")):
+                try:
+                    path.propagate(ps.Signal((t0 + dt * np.arange(n)).copy(), x.copy()), pol.copy(),
+                                   attenuation_interpolation=bad)
+                    fail("bad-step-accepted", bad, "ZeroDivisionError / OverflowError / ValueError",
+                         "attenuation_interpolation=%r was accepted" % bad, extra=dict(extra, step="bad step"))
+                except (ZeroDivisionError, OverflowError, ValueError, FloatingPointError):
+                    run.count("rejected_interpolation_step")
+            # a negative step is rejected (ValueError from logspace) unless the whole log-span is shorter than the
+            # step, in which case the table is just [f_min, f_max] and the result must satisfy the property
+            try:
+                path.propagate(ps.Signal((t0 + dt * np.arange(n)).copy(), x.copy()), pol.copy(),
+                               attenuation_interpolation=-0.1)
+                run.count("negative_interpolation_step_accepted_as_two_point_table")
+                verify_propagation(path, ctx, t0, dt, x, pol, -0.1, dict(extra, step="negative step accepted"))
+            except (ZeroDivisionError, OverflowError, ValueError, FloatingPointError):
+                run.count("rejected_interpolation_step")
         verify_scalar(path, ctx, t0, dt, np.zeros(n), interp, dict(extra, step="scalar signal=zero"))
         # long signals (more than 512 samples, lengths that are no multiple of 512), un-interpolated: every bin of the
         # spectrum carries gain(|f|), the trailing ones included
@@ -1150,7 +1368,7 @@ def verify_scalar(path, ctx, t0, dt, x, interp, extra, fresh=None):
 
 def verify_forms(path, ctx, t0, dt, x, pol, interp, extra):
     """the same samples / times / polarisation handed over as lists, tuples, float32 or integer arrays must give
-    the same outputs as float64 arrays; integer TIME grids are known finding F22"""
+    the same outputs as float64 arrays - integer time grids included (defect F22, repaired in /repo)"""
     rt, im, ps, li = mods()
     kind, fr, fail = ctx["kind"], ctx["fr"], ctx["fail"]
     n = len(x)
@@ -1182,20 +1400,33 @@ def verify_forms(path, ctx, t0, dt, x, pol, interp, extra):
                 and np.allclose(av, ra.values, rtol=0, atol=1e-9 * amp)
                 and np.allclose(bv, rb.values, rtol=0, atol=1e-9 * amp)):
             fail("forms", None, None, "propagate gives another result when the inputs are given as %s" % name, extra=ex)
-    # an integer time grid (Signal(range(N), ...))
-    ex = dict(extra, step="form: int times")
-    ti = np.arange(n, dtype=np.int64)
-    try:
-        (a, b), _ = path.propagate(ps.Signal(ti, np.array(x, dtype=float)), polf.copy())
-        if not np.array_equal(np.array(a.times, dtype=float), ti + float(path.tof)):
-            fail("grid", None, None, "integer time grid is not delayed by the time of flight", extra=ex)
-    except Exception as e:      # noqa: BLE001
-        if type(e).__name__ == "UFuncTypeError" or "Cannot cast ufunc" in str(e):
-            fail("crash", repr(e)[:200], "two signals",
-                 "F22: propagate of a signal with an integer-dtype times array raises (Signal.shift adds tof in place)",
-                 key="F22", extra=ex)
-        else:
-            fail("crash", repr(e)[:200], "two signals", "propagate raised on an integer time grid", extra=ex)
+    # integer time grids (Signal(range(N), ...), repaired as F22): an ordinary form - dt = 1 s, int64 and Python ints
+    for name, ti in (("int64 times", np.arange(n, dtype=np.int64) + 3), ("range times", range(n)),
+                     ("int32 times", np.arange(n, dtype=np.int32))):
+        ex = dict(extra, step="form: " + name)
+        tf = np.array(ti, dtype=float)
+        try:
+            (a, b), _ = path.propagate(ps.Signal(ti, np.array(x, dtype=float)), polf.copy(), **kw)
+            av, bv = np.array(a.values, dtype=float), np.array(b.values, dtype=float)
+            ta, tb = np.array(a.times, dtype=float), np.array(b.times, dtype=float)
+        except Exception as e:      # noqa: BLE001
+            fail("crash", repr(e)[:200], "two signals", "propagate raised for a signal on an integer time grid (%s)"
+                 % name, extra=ex)
+            continue
+        (ra, rb), _ = path.propagate(ps.Signal(tf.copy(), np.array(x, dtype=float)), polf.copy(), **kw)
+        amp = (float(np.max(np.abs(x))) or 1.0) * (float(np.linalg.norm(polf)) or 1.0) * max(1.0, abs(fr[0]), abs(fr[1]))
+        if not (np.array_equal(ta, tf + float(path.tof)) and np.array_equal(tb, tf + float(path.tof))):
+            fail("grid", None, None, "integer time grid (%s) is not delayed by the time of flight" % name, extra=ex)
+        elif not (np.allclose(av, ra.values, rtol=0, atol=1e-9 * amp) and np.allclose(bv, rb.values, rtol=0,
+                                                                                       atol=1e-9 * amp)):
+            fail("forms", None, None, "propagate gives another result on an integer time grid (%s)" % name, extra=ex)
+        try:
+            sc = path.propagate(ps.Signal(ti, np.array(x, dtype=float)), **kw)
+            if not np.array_equal(np.array(sc.times, dtype=float), tf + float(path.tof)):
+                fail("grid", None, None, "scalar form: integer time grid (%s) is not delayed by tof" % name, extra=ex)
+        except Exception as e:      # noqa: BLE001
+            fail("crash", repr(e)[:200], "one signal", "propagate(signal) raised on an integer time grid (%s)" % name,
+                 extra=ex)
 
 
 def make_function_signal(src, times, g):
@@ -1247,6 +1478,7 @@ def verify_function_signal(path, ctx, t0, dt, n, src, pol, interp, extra, g, fre
     try:
         fs, plain = make_function_signal(src, times, g)
     except Exception:      # the signal classes themselves are other properties' subject
+        note_skip("function_signal_not_constructible_" + src)
         return
     x = np.array(plain.values, dtype=float)
     amp = float(np.max(np.abs(x))) * float(np.linalg.norm(pol)) * max(1.0, abs(fr[0]), abs(fr[1]))
@@ -1377,11 +1609,11 @@ def check_history(run, case, idx, kind, fr, k2, fail):
                 prod = np.ones(np.shape(a1))
                 for q in fresh_path().paths:
                     prod = prod * np.asarray(q.attenuation(np.array(f, copy=True), dz=dzv), dtype=float)
-                if not np.allclose(a1, prod, rtol=1e-12, atol=0):
+                if not _same_factors(a1, prod):
                     fail("layered-product", [float(v) for v in a1], [float(v) for v in prod],
                          "layered attenuation(f, dz) is not the product of the sub-paths' attenuation(f, dz)",
                          extra=extra)
-            if not np.allclose(a1, a2, rtol=1e-12, atol=0):
+            if not _same_factors(a1, a2):
                 fail("history", [float(v) for v in a1], [float(v) for v in a2],
                      "attenuation(f, dz) on a used path object differs from a never-used path", extra=extra)
             if not np.allclose(np.log(np.maximum(a1, 1e-300)), np.log(np.maximum(a3, 1e-300)), rtol=2e-2 * dzv + 1e-3,
@@ -1400,16 +1632,16 @@ def check_history(run, case, idx, kind, fr, k2, fail):
                 prod = np.ones(np.shape(a1))
                 for q in fresh_path().paths:
                     prod = prod * np.asarray(q.attenuation(np.array(f, copy=True)), dtype=float)
-                if not np.allclose(a1, prod, rtol=1e-12, atol=0):
+                if not _same_factors(a1, prod):
                     fail("layered-product", [float(v) for v in np.atleast_1d(a1)],
                          [float(v) for v in np.atleast_1d(prod)],
                          "layered attenuation is not the product of the sub-paths' attenuations", extra=extra)
-            if a1.shape != a2.shape or not np.allclose(a1, a2, rtol=1e-12, atol=0):
+            if not _same_factors(a1, a2):
                 fail("history", [float(v) for v in np.atleast_1d(a1)], [float(v) for v in np.atleast_1d(a2)],
                      "attenuation(f) on a used path object differs from a never-used path", extra=extra)
             if st[0] == "atten":
                 one = np.array([float(np.asarray(path.attenuation(np.array([q])))[0]) for q in f])
-                if not np.allclose(one, a1, rtol=1e-12, atol=0):
+                if not _same_factors(one, a1):
                     fail("history", [float(v) for v in a1], [float(v) for v in one],
                          "attenuation of an array differs from attenuation of its elements", extra=extra)
         elif st[0] == "read":
@@ -1429,7 +1661,6 @@ def check_history(run, case, idx, kind, fr, k2, fail):
                      extra=extra)
 
 
-
 def _factor_gap(a, b):
     """distance between attenuation factors measured in the EXPONENT (a factor exp(-x) carries the rounding of x as a
     relative error x*eps, so tiny factors cannot be compared at a fixed relative tolerance); both zero = equal"""
@@ -1442,7 +1673,9 @@ def _factor_gap(a, b):
 
 
 def _same_factors(a, b, tol=1e-11):
-    return bool(np.all(_factor_gap(a, b) <= tol))
+    a, b = np.asarray(a, dtype=float), np.asarray(b, dtype=float)
+    return a.shape == b.shape and bool(np.all(_factor_gap(a, b) <= tol))
+
 
 def search(run, deep):
     npaths = run.scale(30, 200) if not deep else 200
@@ -1465,6 +1698,7 @@ def search(run, deep):
             run.count("search_" + case["tracer"])
             check_path(run, case, i, p, deep)
             done += 1
+    flush_skips(run)
 
 
 def k2_case():
@@ -1486,23 +1720,85 @@ def known_probes(run):
         run.known_finding("K2")
     else:
         run.notes.append("K2 probe: the recorded geometry no longer shows a factor > 1 (%s)" % fr)
-    k18_probe(run)
+    k27_probe(run)
+    k26_probe(run)
 
 
-def k18_probe(run):
-    """F22: propagate of Signal(range(8), ...) raises UFuncTypeError (in-place `times += tof` on an int64 array)"""
+def k26_probe(run):
+    """K26: short nearly horizontal direct ray below z_uniform in Greenland ice: exponent 8 % above length / L_att"""
+    case = {"tracer": "specialized", "ice": {"kind": "greenland"},
+            "from": [438.4364097618236, -430.2656341067369, -417.8831960146711],
+            "to": [425.10359246806445, -405.6917693131539, -417.5831960146711]}
+    paths, _ = make_paths(case)
+    if not paths or not paths[0].direct:
+        run.notes.append("K26 probe: the recorded geometry has no direct solution any more")
+        return
+    p = paths[0]
+    got = -math.log(float(np.asarray(p.attenuation(np.array([1e8])))[0]))
+    bnd = exponent_bounds(p, "specialized", 1e8)
+    run.case({"probe": "K26"}, sample={"probe": "K26", "exponent": got, "length_over_L": list(bnd),
+                                      "theta0": float(p.theta0)})
+    if got > bnd[1] * 1.015:
+        run.known_finding("K26")
+    else:
+        run.notes.append("K26 probe: exponent %.6f is within path_length / L_att = %.6f now" % (got, bnd[1]))
+
+
+def k27_probe(run):
+    """K27: BasicRayTracer((0,0,-170),(430,0,-195)), turning solution: path 398.1 m < chord 430.7 m, exponent low"""
     rt, im, ps, li = mods()
+    try:
+        pb, _ = make_paths({"tracer": "basic", "ice": {"kind": "antarctic"}, "from": [0, 0, -170], "to": [430, 0, -195]})
+        psp, _ = make_paths({"tracer": "specialized", "ice": {"kind": "antarctic"}, "from": [0, 0, -170],
+                             "to": [430, 0, -195]})
+    except Exception:      # noqa: BLE001
+        return
+    if not pb or not psp or pb[0].direct or psp[0].direct:
+        run.notes.append("K27 probe: the recorded geometry has no turning solution any more")
+        return
+    eb = -math.log(float(np.asarray(pb[0].attenuation(np.array([3e8])))[0]))
+    es = -math.log(float(np.asarray(psp[0].attenuation(np.array([3e8])))[0]))
+    chord = math.sqrt(430.0 ** 2 + 25.0 ** 2)
+    run.case({"probe": "K27"}, sample={"probe": "K27", "basic": [float(pb[0].path_length), eb],
+                                      "specialized": [float(psp[0].path_length), es], "chord": chord})
+    if eb < 0.97 * es or float(pb[0].path_length) < chord:
+        run.known_finding("K27")
+    else:
+        run.notes.append("K27 probe: Basic and Specialized agree now (%.5f vs %.5f)" % (eb, es))
+
+
+def corpus(run):
+    """regression inputs of repaired defects: F22 (integer time grid), F11 (exactly vertical ray)"""
+    rt, im, ps, li = mods()
+    ok = True
     paths, _ = make_paths({"tracer": "specialized", "ice": {"kind": "antarctic"}, "from": [0, 0, -600],
                            "to": [300, 40, -50]})
-    if not paths:
-        return
-    try:
-        paths[0].propagate(ps.Signal(range(8), [1, 0, 0, 0, 0, 0, 0, .5]), (0, 0, 1))
-        run.notes.append("F22 probe: an integer time grid is propagated without error now")
-    except Exception as e:      # noqa: BLE001
-        run.case({"probe": "F22"}, sample={"probe": "F22", "raised": repr(e)[:120]})
-        if type(e).__name__ == "UFuncTypeError" or "Cannot cast ufunc" in str(e):
-            run.known_finding("F22")
+    for p in paths[:1]:
+        run.case({"corpus": "F22"}, sample={"corpus": "F22 Signal(range(8), ...) on the default tracer's path"})
+        try:
+            (a, b), _ = p.propagate(ps.Signal(range(8), [1, 0, 0, 0, 0, 0, 0, .5]), (0, 0, 1))
+            good = (np.array_equal(np.array(a.times, dtype=float), np.arange(8) + float(p.tof))
+                    and np.array_equal(np.array(b.times, dtype=float), np.arange(8) + float(p.tof)))
+        except Exception as e:      # noqa: BLE001
+            good = False
+            run.notes.append("corpus F22: %r" % e)
+        if not good:
+            ok = False
+            run.fail_input("corpus-F22", {"tracer": "specialized", "ice": {"kind": "antarctic"}, "from": [0, 0, -600],
+                                          "to": [300, 40, -50], "sol": 0, "oracle": "propagate"},
+                           what="F22 recurred: Signal(range(8), ...) is not propagated onto range(8) + tof")
+    vp, _ = make_paths({"tracer": "specialized", "ice": {"kind": "antarctic"}, "from": [10, -20, -400],
+                        "to": [10, -20, -100]})
+    for p in vp[:1]:
+        run.case({"corpus": "F11"}, sample={"corpus": "F11 exactly vertical ray"})
+        us, up1 = p.propagate(polarization=(1, 0, 0))
+        if not np.allclose([float(np.dot(us, us)), float(np.dot(up1, up1)), float(np.dot(us, up1))], [1, 1, 0],
+                           atol=1e-12):
+            ok = False
+            run.fail_input("corpus-F11", {"tracer": "specialized", "ice": {"kind": "antarctic"},
+                                          "from": [10, -20, -400], "to": [10, -20, -100], "sol": 0},
+                           what="F11 recurred: the vertical ray has no orthonormal polarisation basis")
+    return ok
 
 
 def replay(run, data):
